@@ -442,7 +442,10 @@ def _month_end(y, m):
     return [y, m, calendar.monthrange(y, m)[1]]
 
 
-def gen_triangle(rng, max_keys=136, n_slices=None, kind=None, size="small", restate_p=0.0):
+SIBLING_VARIANTS = ["loss_only", "placement", "attr_named", "none_vs_empty", "hash_collision"]
+
+
+def gen_triangle(rng, max_keys=136, n_slices=None, kind=None, size="small", restate_p=0.0, sibling=None, force=()):
     """A valid wire triangle, already in the library's sorted order (it is built through
     Triangle(...) and canonicalised, so 'wt' is exactly what the library holds)."""
     n_slices = rng.choices([0, 1, 2, 3, 4], [1, 9, 7, 5, 4])[0] if n_slices is None else n_slices
@@ -478,12 +481,13 @@ def gen_triangle(rng, max_keys=136, n_slices=None, kind=None, size="small", rest
     # sibling slices: a slice that differs from slice 0 ONLY in loss_details, or only in WHERE a key
     # lives (details vs loss_details), or only in "attribute vs detail key of the same name" -- they
     # sort next to each other, and a metadata test coarser than the dataclass == merges them
-    if len(metas) >= 2 and total_keys <= 130 and rng.random() < 0.45:
+    if len(metas) >= 2 and total_keys <= 130 and (sibling or rng.random() < 0.45):
         import copy as _copy
 
         m1 = metas[0]
         m2 = _copy.deepcopy(m1)
-        variant = rng.choice(["loss_only", "loss_only", "placement", "attr_named", "none_vs_empty"])
+        variant = sibling or rng.choice(["loss_only", "loss_only", "placement", "attr_named", "none_vs_empty",
+                                          "hash_collision"])
         if variant == "loss_only":
             strs = [it for it in m2["loss_details"] if it[1][0] == "str"]
             if strs and rng.random() < 0.5:
@@ -498,6 +502,16 @@ def gen_triangle(rng, max_keys=136, n_slices=None, kind=None, size="small", rest
             item = ["coverage_p", rng.choice([["str", "BI"], ["int", 7], ["bool", True], ["date", [2021, 3, 4]]])]
             m1["details"].append(item)
             m2["loss_details"].append(_copy.deepcopy(item))
+        elif variant == "hash_collision":
+            # detail values that differ but collide in CPython's hash: hash(-1) == hash(-2),
+            # hash(-1.0) == hash(-2.0), hash(0) == hash(2**61 - 1)
+            va, vb = rng.choice([(["int", -1], ["int", -2]), (["float", struct.pack("<d", -1.0).hex()],
+                                                              ["float", struct.pack("<d", -2.0).hex()]),
+                                 (["int", 0], ["int", 2305843009213693951])])
+            dn = rng.choice(["details", "loss_details"])
+            m1[dn] = [it for it in m1[dn] if it[0] != "layer_h"] + [["layer_h", va]]
+            m2 = _copy.deepcopy(m1)
+            m2[dn][-1] = ["layer_h", vb]
         elif variant == "none_vs_empty":
             a = rng.choice(META_STR_ATTRS)      # None vs "" in one attribute, nothing else differs
             m1[a] = None
@@ -511,7 +525,7 @@ def gen_triangle(rng, max_keys=136, n_slices=None, kind=None, size="small", rest
             m2[a] = None
             m2["details"].append([a, ["str", val]])
         metas[1] = m2
-    res_months = rng.choice([1, 3, 12, "semi", "semi"])
+    res_months = rng.choice([1, 3, 12, "semi", "semi"]) if "semi" not in force else "semi"
     semi = res_months == "semi"
     if semi:
         res_months = 1
@@ -520,9 +534,11 @@ def gen_triangle(rng, max_keys=136, n_slices=None, kind=None, size="small", rest
     if semi and size != "big":
         n_periods = rng.choice([2, 3, 4])       # semi-monthly: two periods inside one calendar month
     n_evals = rng.choice([1, 2, 3]) if size != "big" else 1
+    if "late" in force:
+        n_evals = max(n_evals, 2)
     # fields that never occur in the FIRST cell of a (slice, period) row, only at later evaluations
     late_fields = []
-    if n_evals >= 2 and field_keys and rng.random() < 0.35:
+    if n_evals >= 2 and field_keys and ("late" in force or rng.random() < 0.35):
         late_fields = rng.sample(field_keys, min(len(field_keys), rng.choice([1, 2])))
     none_field = rng.choice(field_keys) if field_keys and rng.random() < 0.1 else None   # all-None field
     step = 2 if (not semi and rng.random() < 0.15) else 1     # gaps: no two periods adjacent
@@ -576,7 +592,7 @@ def gen_triangle(rng, max_keys=136, n_slices=None, kind=None, size="small", rest
     # nested periods: two periods with the SAME period_start, different period_end and a conflicting
     # evaluation order -- (ps, pe_short, ev_late) must precede (ps, pe_long, ev_early); an ordering by
     # (period_start, evaluation_date, period_end) would swap them.  Put into every slice.
-    if y0 >= 2 and size != "big" and rng.random() < 0.35:
+    if y0 >= 2 and size != "big" and ("nested" in force or rng.random() < 0.35):
         for m in metas:
             ny = y0 - 1
             ps = [ny, m0, 1]
@@ -594,6 +610,16 @@ def gen_triangle(rng, max_keys=136, n_slices=None, kind=None, size="small", rest
                     qy, qm = _add_months(ev[0], ev[1], -1)
                     c["prev"] = _month_end(qy, qm)
                 cells.append(c)
+    # far-apart dates: an open-ended period_end == date.max / a sentinel evaluation 9999-12-30 next to
+    # ordinary dates (spans of more than 2**21 days overflow packed integer sort keys)
+    if "farspan" in force or (cells and rng.random() < 0.12):
+        for m in metas[: rng.choice([1, len(metas)])]:
+            c0 = next((c for c in cells if c["meta"] is m), None)
+            c = {"kind": kind, "ps": list(c0["ps"]) if c0 else [y0, m0, 1], "pe": [9999, 12, 31], "ev": [9999, 12, 30],
+                 "prev": None, "values": [[k, gen_cell_value(rng)] for k in field_keys if rng.random() < 0.6], "meta": m}
+            if kind == "IncrementalCell":
+                c["prev"] = [9999, 12, 29]
+            cells.append(c)
     # restated cells: the same metadata and coordinates twice with different values (accepted with a warning)
     if cells and rng.random() < restate_p:
         import copy as _copy
